@@ -18,7 +18,16 @@ pub static START: std::sync::OnceLock<std::time::Instant> = std::sync::OnceLock:
 pub fn now_ms() -> u64 {
     START.get_or_init(std::time::Instant::now).elapsed().as_millis() as u64
 }
+thread_local! {
+    /// file holding the sequence this thread is running (named in HANG reports)
+    pub static CURRENT_SEQ: std::cell::RefCell<String> = std::cell::RefCell::new(String::new());
+}
+
 pub fn watch_begin(budget_ms: u64, what: String) -> u64 {
+    let what = CURRENT_SEQ.with(|c| {
+        let c = c.borrow();
+        if c.is_empty() || what.contains("seq-file=") { what.clone() } else { format!("{} seq-file={}", what, c) }
+    });
     let id = WATCH_ID.fetch_add(1, Ordering::SeqCst);
     WATCH.lock().unwrap().push((id, now_ms() + budget_ms, what));
     id
